@@ -28,6 +28,8 @@ type Parser struct {
 	inputLen    int
 	// comment line met where a posting was expected; belongs to the transaction
 	lineComment *ast.Comment
+	// end of the token consumed last: where the element being parsed really ends
+	prevEnd Position
 }
 
 func Parse(input string) (*ast.Journal, []ParseError) {
@@ -315,7 +317,7 @@ func (p *Parser) parsePosting() *ast.Posting {
 		p.advance()
 	}
 
-	posting.Range.End = toASTPosition(p.current.Pos)
+	posting.Range.End = toASTPosition(p.prevEnd)
 	return posting
 }
 
@@ -392,7 +394,7 @@ func (p *Parser) parseAmount() *ast.Amount {
 		}
 	}
 
-	amount.Range.End = toASTPosition(p.current.Pos)
+	amount.Range.End = toASTPosition(p.prevEnd)
 	return amount
 }
 
@@ -410,7 +412,7 @@ func (p *Parser) parseCost() *ast.Cost {
 		return nil
 	}
 	cost.Amount = *amount
-	cost.Range.End = toASTPosition(p.current.Pos)
+	cost.Range.End = toASTPosition(p.prevEnd)
 	return cost
 }
 
@@ -428,7 +430,7 @@ func (p *Parser) parseBalanceAssertion() *ast.BalanceAssertion {
 		return nil
 	}
 	ba.Amount = *amount
-	ba.Range.End = toASTPosition(p.current.Pos)
+	ba.Range.End = toASTPosition(p.prevEnd)
 	return ba
 }
 
@@ -465,17 +467,19 @@ func (p *Parser) parseAccountDirective(startPos Position) ast.Directive {
 
 	accountName := p.current.Value
 	accountPos := p.current.Pos
+	accountEnd := p.current.End
 	p.advance()
 
 	if p.current.Type == TokenText {
 		accountName += " " + p.current.Value
+		accountEnd = p.current.End
 		p.advance()
 	}
 
 	dir := ast.AccountDirective{
 		Account: ast.Account{
 			Name:  accountName,
-			Range: ast.Range{Start: toASTPosition(accountPos)},
+			Range: ast.Range{Start: toASTPosition(accountPos), End: toASTPosition(accountEnd)},
 		},
 		Range: ast.Range{Start: toASTPosition(startPos)},
 	}
@@ -507,7 +511,7 @@ func (p *Parser) parseCommodityDirective(startPos Position) ast.Directive {
 		symbol := p.current.Value
 		dir.Commodity = ast.Commodity{
 			Symbol: symbol,
-			Range:  ast.Range{Start: toASTPosition(p.current.Pos)},
+			Range:  ast.Range{Start: toASTPosition(p.current.Pos), End: toASTPosition(p.current.End)},
 		}
 		p.advance()
 
@@ -524,7 +528,7 @@ func (p *Parser) parseCommodityDirective(startPos Position) ast.Directive {
 		if p.current.Type == TokenCommodity || p.current.Type == TokenText {
 			dir.Commodity = ast.Commodity{
 				Symbol: p.current.Value,
-				Range:  ast.Range{Start: toASTPosition(p.current.Pos)},
+				Range:  ast.Range{Start: toASTPosition(p.current.Pos), End: toASTPosition(p.current.End)},
 			}
 			dir.Format = number + " " + p.commodityAsWritten(p.current)
 			p.advance()
@@ -532,7 +536,7 @@ func (p *Parser) parseCommodityDirective(startPos Position) ast.Directive {
 	case TokenText:
 		dir.Commodity = ast.Commodity{
 			Symbol: p.current.Value,
-			Range:  ast.Range{Start: toASTPosition(p.current.Pos)},
+			Range:  ast.Range{Start: toASTPosition(p.current.Pos), End: toASTPosition(p.current.End)},
 		}
 		p.advance()
 	}
@@ -605,7 +609,7 @@ func (p *Parser) parsePriceDirective(startPos Position) ast.Directive {
 	if p.current.Type == TokenCommodity || p.current.Type == TokenText {
 		dir.Commodity = ast.Commodity{
 			Symbol: p.current.Value,
-			Range:  ast.Range{Start: toASTPosition(p.current.Pos)},
+			Range:  ast.Range{Start: toASTPosition(p.current.Pos), End: toASTPosition(p.current.End)},
 		}
 		p.advance()
 	} else {
@@ -829,6 +833,7 @@ func isValidTagName(name string) bool {
 }
 
 func (p *Parser) advance() {
+	p.prevEnd = p.current.End
 	p.current = p.lexer.Next()
 }
 
